@@ -125,9 +125,35 @@ package failsafehttp
 //@ func RetryPolicyBuilder
 //@   builder
 //@   dyntype retrypolicy.RetryPolicyBuilder *retrypolicy.config only
+//@   inlinecalls (*config).HandleIf, (*config).AbortOnErrors, (*config).WithDelayFunc, retrypolicy.Builder
 //@   let c := asref(result, *retrypolicy.config)
 //@   ensures [C18.builder.abort_only_on_canceled] typeis(result, *retrypolicy.config) && len(c.abortConditions) == 1 && clofn(c.abortConditions[0]) == fnid("github.com/failsafe-go/failsafe-go/policy.(*BaseAbortablePolicy).AbortOnErrors$1") && cellof(clobind(c.abortConditions[0], 0), error) == global("context.Canceled")
 //@   ensures [C18.builder.handles_documented_outcomes] len(c.failureConditions) == 1 && c.failureConditions[0] == fnid("RetryPolicyBuilder$1")
 //@   ensures [C18.builder.retry_after_delay] c.DelayFunc == fnid("DelayFunc")
 //@   havoc
 //@   modifies *
+
+// the two front doors and their constructors
+//@ func (*roundTripper).RoundTrip
+//@   requires r != nil && r.next != nil && request != nil && r.executor != nil
+//@   oldlet nd := 0
+//@   oncall doRequest: nd := nd + 1; dreq := callarg_0; dex := callarg_1; r0 := callresult_0; r1 := callresult_1
+//@   ensures [C18.roundtrip.delegates] nd == 1 && dreq == request && dex == old(r.executor) && result_0 == r0 && result_1 == r1
+//@   havoc
+//@   modifies *
+//@ func (*Request).Do
+//@   requires r != nil && r.client != nil && r.request != nil && r.executor != nil
+//@   oldlet nd := 0
+//@   oncall doRequest: nd := nd + 1; dreq := callarg_0; dex := callarg_1; r0 := callresult_0; r1 := callresult_1
+//@   ensures [C18.request_do.delegates] nd == 1 && dreq == old(r.request) && dex == old(r.executor) && result_0 == r0 && result_1 == r1
+//@   havoc
+//@   modifies *
+//@ func NewRoundTripperWithExecutor
+//@   builder
+//@   let t := asref(result, *roundTripper)
+//@   ensures [C18.new_round_tripper] typeis(result, *roundTripper) && fresh(t) && t.executor == executor && (innerRoundTripper != nil ==> t.next == innerRoundTripper) && (innerRoundTripper == nil ==> t.next == global("net/http.DefaultTransport"))
+//@   modifies nothing
+//@ func NewRequestWithExecutor
+//@   builder
+//@   ensures [C18.new_request] result != nil && fresh(result) && result.executor == executor && result.request == request && result.client == client
+//@   modifies nothing
